@@ -142,6 +142,39 @@ pub fn replay_item(out: &mut Out, bv: &Value, rng: &mut Rng, n: usize) {
                         checked_call(out, e, &text, &ph, Some(&exp), json!({"v": "accept"}), true, &ctx);
                     }
                 }
+                // every pair of boundary arguments (both zero, both extreme, mixed signs, the unit, a half)
+                {
+                    let lits = ["0", "1", "2", "0.5", "10", "63", "64", "9223372036854775807", "4294967296"];
+                    for x in [0.0f64, -0.0, 1.0, -1.0, 2.0, -2.0, 0.5, -0.5, 10.0, 64.0, 9223372036854775807.0, -9223372036854775808.0, f64::INFINITY, f64::NAN] {
+                        if !x.is_finite() && (e == "i64" || e == "dec") { continue; }
+                        let phs: Vec<Val> = match e {
+                            "i64" if x == 9223372036854775807.0 => vec![Val::I(i64::MAX)],
+                            "i64" if x == -9223372036854775808.0 => vec![Val::I(i64::MIN)],
+                            "num" if x == 9223372036854775807.0 => vec![Val::N(Number::Integer(i64::MAX)), Val::N(Number::Float(x))],
+                            "num" if x == -9223372036854775808.0 => vec![Val::N(Number::Integer(i64::MIN)), Val::N(Number::Float(x))],
+                            "f64" | "num" | "cpx" if !x.is_finite() => ph_of(e, x).into_iter().collect(),
+                            _ => phs_of(e, x),
+                        };
+                        for ph in phs {
+                            for l in lits {
+                                if e == "i64" && l.contains('.') { continue; }
+                                for neg in [false, true] {
+                                    let mut asg = Asg::default();
+                                    asg.fns.insert(1, func.to_string());
+                                    asg.lits.insert(5, (l.to_string(), false));
+                                    let litnode = if neg { T::Neg(Box::new(T::Num(5))) } else { T::Num(5) };
+                                    let lt = if neg { format!("-{}", l) } else { l.to_string() };
+                                    for (t, text) in [(T::Call("f2".into(), 1, vec![T::Ans(3), litnode.clone()]), format!("{}(@,{})", spell, lt)),
+                                                      (T::Call("f2".into(), 1, vec![litnode.clone(), T::Ans(3)]), format!("{}({},@)", spell, lt)),
+                                                      (T::Call("f2".into(), 1, vec![T::Ans(3), T::Ans(3)]), format!("{}(@,@)", spell))] {
+                                        let exp = expected(e, &t, &asg, &ph);
+                                        checked_call(out, e, &text, &ph, Some(&exp), json!({"v": "accept"}), true, &ctx);
+                                    }
+                                }
+                            }
+                        }
+                    }
+                }
                 // powers on a grid: bases below and above 1, whole exponents far from 0 in both directions (the intermediate of a
                 // reciprocal power loses its digits), as function and as operator
                 if func == "Pow" {
